@@ -113,6 +113,28 @@ func isPrefix(d, want []int) bool {
 	return reflect.DeepEqual(append([]int{}, d...), append([]int{}, want[:len(d)]...))
 }
 
+// subseqValidator: with a predicate that returns errors the properties say nothing about which elements come out,
+// only that nothing is invented, duplicated or reordered (liveness and leak clauses apply as for any other function).
+func subseqValidator(what string, in []int) func(p *port, final bool) string {
+	return func(p *port, final bool) string {
+		k := 0
+		for _, v := range p.delivered {
+			for k < len(in) && in[k] != v {
+				k++
+			}
+			if k == len(in) {
+				return fmt.Sprintf("%s (predicate returns errors): delivered %v is not a subsequence of the input %v", what, p.delivered, in)
+			}
+			k++
+		}
+		return ""
+	}
+}
+
+func (sc *Scenario) errPred() bool {
+	return (sc.Stage == "filter" || sc.Stage == "takeWhile" || sc.Stage == "partition") && (sc.Mode == "lift" || sc.Mode == "try")
+}
+
 func listValidator(what string, want []int) func(p *port, final bool) string {
 	return func(p *port, final bool) string {
 		if !isPrefix(p.delivered, want) {
@@ -296,6 +318,10 @@ func build(e *env) (post func() string) {
 		p := intPort("out", pipe.Filter(ctx, ro, liftF(e, sc.pred)))
 		p.validate = listValidator("filter", want)
 		e.ports = []*port{p}
+		if sc.errPred() {
+			p.validate = subseqValidator("filter", sc.In[0])
+			return nil
+		}
 		return callsOnce(len(sc.In[0]))
 	case "take":
 		n := min(sc.N, len(sc.In[0]))
@@ -317,6 +343,10 @@ func build(e *env) (post func() string) {
 		p := intPort("out", pipe.TakeWhile(ctx, ro, liftF(e, sc.pred)))
 		p.validate = listValidator("takeWhile", want)
 		e.ports = []*port{p}
+		if sc.errPred() {
+			p.validate = subseqValidator("takeWhile", sc.In[0])
+			return nil
+		}
 		return both(callsOnce(consumed), consumedAtMost(consumed))
 	case "partition":
 		l, r := []int{}, []int{}
@@ -331,6 +361,10 @@ func build(e *env) (post func() string) {
 		p, q := intPort("left", lo), intPort("right", ro2)
 		p.validate, q.validate = listValidator("partition/left", l), listValidator("partition/right", r)
 		e.ports = []*port{p, q}
+		if sc.errPred() {
+			p.validate, q.validate = subseqValidator("partition/left", sc.In[0]), subseqValidator("partition/right", sc.In[0])
+			return nil
+		}
 		return callsOnce(len(sc.In[0]))
 	case "fold":
 		acc := sc.foldEmpty()
@@ -785,6 +819,9 @@ func (e *env) backpressure() bool {
 // have closed once their result is complete, without waiting for the input to end.
 func (e *env) openPhaseCheck() string {
 	sc := e.sc
+	if sc.errPred() {
+		return "" // nothing is stated about which elements pass a predicate that returns errors
+	}
 	switch sc.Stage {
 	case "take":
 		p := e.ports[0]
